@@ -31,6 +31,7 @@ use crate::core::mining_thread::MiningEvent;
 use crate::core::routing_thread::RoutingEvent;
 use crate::core::util::balance_snapshot::BalanceSnapshot;
 use crate::core::util::configuration::Configuration;
+use crate::core::util::crypto::verify_signature;
 use crate::{drain, iterate};
 
 pub fn bit_pack(top: u32, bottom: u32) -> u64 {
@@ -260,6 +261,31 @@ impl Blockchain {
         // is worth going through the more general effort of evaluating
         // this block for consensus.
         //
+        // the block hash covers neither the creator's signature nor the
+        // transactions themselves (only the merkle root in the header), so
+        // before a block is indexed under its hash we make sure it is what
+        // its creator signed. otherwise a tampered copy stored as a side
+        // block would keep the real block out ("already exists").
+        if !verify_signature(&block.pre_hash, &block.signature, &block.creator) {
+            error!(
+                "block : {:?}-{:?} is not signed by its creator. not adding",
+                block.id,
+                block.hash.to_hex()
+            );
+            return AddBlockResult::FailedNotValid;
+        }
+        if block.block_type == BlockType::Full
+            && !configs.is_spv_mode()
+            && !configs.is_browser()
+            && block.merkle_root != block.generate_merkle_root(false, false)
+        {
+            error!(
+                "block : {:?}-{:?} does not carry the transactions its header commits to. not adding",
+                block.id,
+                block.hash.to_hex()
+            );
+            return AddBlockResult::FailedNotValid;
+        }
 
         // save block to disk
         //
